@@ -4,18 +4,26 @@
 //! Case lines (first word selects the sub-model; strings are lower-case hex of their UTF-8
 //! bytes, `-` = empty):
 //!   q <protected> <in1> <in2> …      Quoter::new(b"", protected).requote(in_k) for every k
+//!   u <path> …                       Url::new(Uri).path() (DEFAULT_QUOTER of url.rs, protected `%/+`)
 //!   m <F|P> <pats> <path>…           ResourceDef::new / ::prefix; per path is_match/find_match/capture_match_info
 //!   b <F|P> <pats> <val>…            resource_path_from_iter, then capture_match_info on the built path
+//!   bm <F|P> <pats> <name>=<val>…    resource_path_from_map (later duplicates win, as in HashMap::insert)
 //!   k <path> <F|P>:<pat>…            successive capture_match_info calls on one Path
 //!     <pats> = `S <pat>` (Patterns::Single) | `L<n> <pat>×n` (Patterns::List)
 use std::panic::{catch_unwind, AssertUnwindSafe};
 
-use actix_router::{Path, Patterns, Quoter, ResourceDef};
+use actix_router::{Path, Patterns, Quoter, ResourceDef, Url};
 
 use super::Prop;
 use crate::common::{hex, unhex, CaseResult, Ctx, Rng};
 
-const RULE: &str = "q-cases: Quoter::requote on all 1- and 2-byte strings, all 3-byte strings starting with '%', \
+const RULE: &str = "m-cases: one ResourceDef (full or prefix; single pattern or pattern list) x up to 256 paths, \
+per path is_match / find_match / capture_match_info with offsets and values: exhaustive patterns of 1-2 segments from a menu of 10 shapes \
+and 3 segments from a menu of 6 (static /a / a -, {x}, {x:\\d+}, {x:[ab]{2}}, {x:.*}, {x:[^/]*}, {x:a?}, tail {t}*) x all paths over {a,1,/,%,2,F} \
+up to length 4 (5 in thorough), pattern lists of 0/1/2, random regexes of the modelled fragment x sampled+mutated Unicode paths, malformed patterns, \
+long paths up to 65535 bytes; b/bm-cases: resource_path_from_iter / from_map then capture; k-cases: chained captures on one Path; \
+an m/b/k case is non-trivial if at least one path matched (b: values legal for the pattern); u-cases: Url::new(Uri).path() (the DEFAULT_QUOTER) \
+on every http-valid path over {/,%,2,5,F,f,B,4,a} up to length 5 plus random escape-rich paths; q-cases: Quoter::requote on all 1- and 2-byte strings, all 3-byte strings starting with '%', \
 all strings over {%,2,F,5,/,a,x} up to length 6 (batched 64 inputs per line) for the protected sets {}, {%/+}, {/}, {+}, \
 plus seeded random byte strings (escape-dense) up to 2000 bytes and random protected sets (incl. non-ASCII => panic); \
 a q-case is non-trivial if at least one input was changed by decoding; distinct = distinct (case, output) hashes";
@@ -124,6 +132,75 @@ fn run_q(words: &[&str]) -> CaseResult {
     res
 }
 
+/// `u <path>…`: the quoter that `Url::new` really uses (url.rs `DEFAULT_QUOTER`)
+fn run_u(words: &[&str]) -> CaseResult {
+    let mut res = CaseResult::ok(String::new()).tag("u");
+    let mut outs = Vec::new();
+    let mut changed = 0;
+    for w in &words[1..] {
+        let Some(p) = unhex_str(w) else {
+            outs.push("bad-case".to_owned());
+            continue;
+        };
+        let Ok(uri) = http::Uri::try_from(p.as_str()) else {
+            outs.push("bad-uri".to_owned());
+            continue;
+        };
+        let url = Url::new(uri);
+        let got = url.path().to_owned();
+        let (want, n) = ref_decode(b"%/+", p.as_bytes());
+        if n > 0 {
+            changed += 1;
+        }
+        if got.as_bytes() != &want[..] {
+            res = res.fail("url-path-decoding", format!("Url::new({:?}).path() = {:?}, reference {:?}", p, got, String::from_utf8_lossy(&want)));
+        }
+        // the segment structure is untouched: same number of '/', and each segment decodes on its own
+        let a: Vec<&str> = got.split('/').collect();
+        let b: Vec<Vec<u8>> = p.split('/').map(|s| ref_decode(b"%/+", s.as_bytes()).0).collect();
+        if a.len() != b.len() || a.iter().zip(&b).any(|(x, y)| x.as_bytes() != &y[..]) {
+            res = res.fail("url-slash-moved", format!("Url::new({:?}).path() = {:?}: '/' structure changed", p, got));
+        }
+        outs.push(hs(&got));
+    }
+    res.nontrivial = changed > 0;
+    res.output = outs.join(" ");
+    res
+}
+
+fn gen_u(ctx: &Ctx, rng: &mut Rng, cases: &mut Vec<String>) {
+    // exhaustive over a small alphabet, only what http::Uri accepts as a path; escapes stay ASCII
+    // so that `from_utf8_lossy` (not modelled) is the identity
+    const AL: &[char] = &['/', '%', '2', '5', 'F', 'f', 'B', '4', 'a'];
+    let mut all = all_strings(AL, 5);
+    for _ in 0..ctx.budget(3000) {
+        let n = rng.range(1, 40);
+        let mut s = String::from("/");
+        for _ in 0..n {
+            match rng.below(6) {
+                0 => s.push_str(*rng.pick(&["%2F", "%2f", "%25", "%2B", "%41", "%7e", "%2", "%", "%G1", "%20", "%3A", "%C3%A9", "%E6%97%A5"][..])),
+                1 => s.push('/'),
+                _ => s.push(*rng.pick(&['a', 'b', '1', '-', '.', '_', '~', '+', ':', '@'][..])),
+            }
+        }
+        all.push(s);
+    }
+    let ok: Vec<String> = all
+        .into_iter()
+        .filter(|s| s.starts_with('/') && http::Uri::try_from(s.as_str()).map_or(false, |u| u.path() == s))
+        // `requote_str_lossy` replaces invalid UTF-8 by U+FFFD (not modelled): keep decodings that are valid UTF-8
+        .filter(|s| String::from_utf8(ref_decode(b"%/+", s.as_bytes()).0).is_ok())
+        .collect();
+    for chunk in ok.chunks(64) {
+        let mut line = String::from("u");
+        for p in chunk {
+            line.push(' ');
+            line.push_str(&hs(p));
+        }
+        cases.push(line);
+    }
+}
+
 fn gen_q(ctx: &Ctx, rng: &mut Rng, cases: &mut Vec<String>) {
     let prots: [&[u8]; 4] = [b"", b"%/+", b"/", b"+"];
     let mut inputs: Vec<Vec<u8>> = Vec::new();
@@ -201,8 +278,26 @@ fn hs(x: &str) -> String {
     hex(x.as_bytes())
 }
 
+/// hex string, or `part+part+…` where a part is hex or `*<n>:<hex>` (the bytes repeated n times)
 fn unhex_str(w: &str) -> Option<String> {
-    String::from_utf8(unhex(w)?).ok()
+    if !w.contains('+') && !w.starts_with('*') {
+        return String::from_utf8(unhex(w)?).ok();
+    }
+    let mut out = Vec::new();
+    for part in w.split('+') {
+        match part.strip_prefix('*') {
+            Some(rep) => {
+                let (n, h) = rep.split_once(':')?;
+                let n: usize = n.parse().ok()?;
+                let b = unhex(h)?;
+                for _ in 0..n {
+                    out.extend_from_slice(&b);
+                }
+            }
+            None => out.extend_from_slice(&unhex(part)?),
+        }
+    }
+    String::from_utf8(out).ok()
 }
 
 /// `S <pat>` | `L<n> <pat>×n` → (patterns, is_single, rest)
@@ -681,6 +776,8 @@ fn run_m(prefix: bool, ws: &[&str]) -> CaseResult {
             outs.push("bad-case".to_owned());
             continue;
         };
+        let had_fail = res.fail.is_some();
+        let minimal = format!(" | minimal case: m {} {} {}", if prefix { "P" } else { "F" }, pats_words(&pats, single), w);
         let in_scope = path.len() < 65536; // `http::Uri` never hands out longer paths
         let is = rd.is_match(&path);
         let find = rd.find_match(&path);
@@ -742,6 +839,11 @@ fn run_m(prefix: bool, ws: &[&str]) -> CaseResult {
             }
         } else {
             res = res.tag("m-over-64k");
+        }
+        if !had_fail {
+            if let Some((_, d)) = res.fail.as_mut() {
+                d.push_str(&minimal);
+            }
         }
         outs.push(format!(
             "{}/{}/{}",
@@ -821,6 +923,42 @@ fn run_b(prefix: bool, ws: &[&str]) -> CaseResult {
                     res = res.fail("build-no-match", format!("pattern {:?} values {:?} built {:?} does not match", pats[0], used, built));
                 }
             }
+        }
+    }
+    res
+}
+
+fn run_bm(prefix: bool, ws: &[&str]) -> CaseResult {
+    let Some((pats, single, kvs)) = take_patterns(ws) else {
+        return CaseResult::ok("bad-case".into());
+    };
+    let mut res = CaseResult::ok(String::new()).tag("bm");
+    res.nontrivial = false;
+    let Some(rd) = mk_def(prefix, &pats, single) else {
+        res.output = "panic".into();
+        return res;
+    };
+    let mut map = std::collections::HashMap::new();
+    for kv in kvs {
+        let Some((k, v)) = kv.split_once('=') else { return CaseResult::ok("bad-case".into()) };
+        let (Some(k), Some(v)) = (unhex_str(k), unhex_str(v)) else { return CaseResult::ok("bad-case".into()) };
+        map.insert(k, v);
+    }
+    let mut built = String::new();
+    let ok = rd.resource_path_from_map(&mut built, &map);
+    res.output = format!("{}:{}", ok as u8, hs(&built));
+    // oracle: from_map with the names of the first pattern = from_iter with the values in order
+    if let Some(r) = ref_parse(&pats[0], !single) {
+        let names: Vec<&String> = r.segs.iter().filter_map(|s| if let RSeg::Var(n, _) = s { Some(n) } else { None }).collect();
+        if let Some(vals) = names.iter().map(|n| map.get(*n).cloned()).collect::<Option<Vec<String>>>() {
+            let mut again = String::new();
+            let ok2 = rd.resource_path_from_iter(&mut again, &vals);
+            res.nontrivial = ok && !vals.is_empty();
+            if !ok || !ok2 || again != built {
+                res = res.fail("build-map-vs-iter", format!("from_map {:?}/{} from_iter {:?}/{}", built, ok, again, ok2));
+            }
+        } else if ok {
+            res = res.fail("build-map-missing", format!("from_map succeeded although a name is missing: {:?}", built));
         }
     }
     res
@@ -965,6 +1103,15 @@ fn gen_exhaustive(ctx: &Ctx, cases: &mut Vec<String>) {
     for p in &pats {
         for prefix in [false, true] {
             push_m(cases, prefix, &[p.clone()], true, &paths4);
+        }
+    }
+    // multi-byte characters: byte offsets vs character counts, exhaustively on a tiny alphabet
+    let upaths = all_strings(&['a', '/', 'é', '😀'], 4);
+    for a in MENU {
+        for prefix in [false, true] {
+            push_m(cases, prefix, &[inst(a, 0)], true, &upaths);
+            push_m(cases, prefix, &[format!("/é{}", inst(a, 0))], true, &upaths);
+            push_m(cases, prefix, &[format!("{}{{y:.{{1,2}}}}", inst(a, 0))], true, &upaths);
         }
     }
     // pattern lists of ≤ 2 (and the degenerate lists of 0 and 1)
@@ -1129,6 +1276,26 @@ fn gen_random(ctx: &Ctx, rng: &mut Rng, cases: &mut Vec<String>) {
                 }
                 let vs: Vec<String> = vals.iter().map(|v| hs(v)).collect();
                 cases.push(format!("b {} {} {}", if prefix { "P" } else { "F" }, pats_words(&pats, true), vs.join(" ")).trim_end().to_owned());
+                // the same through resource_path_from_map (names of the pattern, shuffled, maybe one missing / extra / doubled)
+                let mut kvs: Vec<String> = r
+                    .segs
+                    .iter()
+                    .filter_map(|s| if let RSeg::Var(n, _) = s { Some(n.clone()) } else { None })
+                    .zip(vals.iter())
+                    .map(|(n, v)| format!("{}={}", hs(&n), hs(v)))
+                    .collect();
+                if kvs.len() > 1 && rng.chance(1, 2) {
+                    let i = rng.below(kvs.len());
+                    kvs.swap(0, i);
+                }
+                if rng.chance(1, 8) {
+                    kvs.push(format!("{}={}", hs("zz"), hs("1")));
+                }
+                if rng.chance(1, 8) && !kvs.is_empty() {
+                    let again = format!("{}={}", kvs[0].split('=').next().unwrap(), hs("dup"));
+                    kvs.push(again);
+                }
+                cases.push(format!("bm {} {} {}", if prefix { "P" } else { "F" }, pats_words(&pats, true), kvs.join(" ")).trim_end().to_owned());
             }
         }
     }
@@ -1164,7 +1331,7 @@ fn gen_random(ctx: &Ctx, rng: &mut Rng, cases: &mut Vec<String>) {
         }
     }
     // long paths up to the URL limit (http::Uri: < 65535 bytes)
-    for i in 0..ctx.budget(12) {
+    for i in 0..ctx.budget(40) {
         let total = match i {
             0 => 65_534,
             1 => 65_535,
@@ -1173,20 +1340,26 @@ fn gen_random(ctx: &Ctx, rng: &mut Rng, cases: &mut Vec<String>) {
         };
         const LP: &[&str] = &["/{a}/{b}", "/u/{t}*", "/{a}-{b}", "/{a:[a-z0-9_]+}/x", "/{a}/x", "/{a:.*}/{b}"];
         let pat = *rng.pick(LP);
-        // shape: "/" + run + mid + run, sized to `total`
+        // shape: "/" + run + mid + run, sized to `total`; written compactly as repeated blocks
         const MID: &[&str] = &["/", "-", "/x", "//"];
         let mid = *rng.pick(MID);
         let left = rng.range(1, total - 10);
-        let mut s = String::with_capacity(total);
-        s.push('/');
-        while s.len() < left {
-            s.push(*rng.pick(&['a', 'b', '1', '_']));
-        }
-        s.push_str(mid);
-        while s.len() < total {
-            s.push(*rng.pick(&['a', 'b', '1', '_']));
-        }
-        push_m(cases, rng.chance(1, 3), &[pat.to_owned()], true, &[s]);
+        let right = total - 1 - left - mid.len();
+        const BLK: &[&str] = &["a", "ab1_", "b", "_1"];
+        let (b1, b2) = (*rng.pick(BLK), *rng.pick(BLK));
+        let word = format!(
+            "2f+*{}:{}+{}+{}+*{}:{}+{}",
+            left / b1.len(),
+            hs(b1),
+            hs(&b1[..left % b1.len()]).replace('-', ""),
+            hs(mid),
+            right / b2.len(),
+            hs(b2),
+            hs(&b2[..right % b2.len()]).replace('-', "")
+        )
+        .replace("++", "+");
+        let word = word.trim_end_matches('+').to_owned();
+        cases.push(format!("m {} S {} {}", if rng.chance(1, 3) { "P" } else { "F" }, hs(pat), word));
     }
 }
 
@@ -1194,6 +1367,7 @@ fn gen(ctx: &Ctx) -> Vec<String> {
     let mut rng = Rng::new(ctx.seed);
     let mut cases = Vec::new();
     gen_q(ctx, &mut rng, &mut cases);
+    gen_u(ctx, &mut rng, &mut cases);
     gen_exhaustive(ctx, &mut cases);
     gen_random(ctx, &mut rng, &mut cases);
     cases
@@ -1203,8 +1377,10 @@ fn run(line: &str) -> CaseResult {
     let words: Vec<&str> = line.split_ascii_whitespace().collect();
     match words.first().copied() {
         Some("q") if words.len() >= 2 => run_q(&words),
+        Some("u") => run_u(&words),
         Some("m") if words.len() >= 3 => run_m(words[1] == "P", &words[2..]),
         Some("b") if words.len() >= 3 => run_b(words[1] == "P", &words[2..]),
+        Some("bm") if words.len() >= 3 => run_bm(words[1] == "P", &words[2..]),
         Some("k") if words.len() >= 2 => run_k(&words[1..]),
         _ => {
             let mut r = CaseResult::ok("bad-case".into());
